@@ -36,7 +36,12 @@ func main() {
 		seed, _ = strconv.ParseInt(s, 10, 64)
 	}
 	start := time.Now()
-	prog, err := LoadProgram(*repo, filepath.Join(*verif, "work"), nil)
+	overlay, err := specOverlay(*repo, filepath.Join(*verif, "spec"))
+	if err != nil {
+		fmt.Printf("CHECKER-BROKEN cannot read spec files: %v\n", err)
+		os.Exit(2)
+	}
+	prog, _, err := LoadWithSpecs(*repo, filepath.Join(*verif, "work"), overlay)
 	if err != nil {
 		fmt.Printf("CHECKER-BROKEN cannot load %s: %v\n", *repo, err)
 		os.Exit(2)
